@@ -330,8 +330,36 @@ func genUnencodable(t *rapid.T) Case {
 	if any {
 		host = drawProtein(t, f, 0, 50)
 	}
-	pos := rapid.IntRange(0, len(host)).Draw(t, "at")
-	c.Protein = host[:pos] + bad + host[pos:]
+	at := func(name string) int {
+		switch rapid.IntRange(0, 3).Draw(t, name+"_where") {
+		case 0:
+			return 0
+		case 1:
+			return len(host)
+		}
+		return rapid.IntRange(0, len(host)).Draw(t, name)
+	}
+	switch rapid.IntRange(0, 4).Draw(t, "shape") {
+	case 0, 1: // one unencodable residue
+		pos := at("at")
+		c.Protein = host[:pos] + bad + host[pos:]
+	case 2: // a run of the same unencodable residue
+		pos := at("at")
+		c.Protein = host[:pos] + strings.Repeat(bad, rapid.IntRange(2, 4).Draw(t, "run")) + host[pos:]
+	case 3: // several, possibly different, at separate places
+		c.Protein = host
+		for i, k := 0, rapid.IntRange(2, 4).Draw(t, "how_many"); i < k; i++ {
+			b := rapid.SampledFrom(ok).Draw(t, "another_unencodable_residue")
+			pos := rapid.IntRange(0, len(c.Protein)).Draw(t, "another_at")
+			c.Protein = c.Protein[:pos] + b + c.Protein[pos:]
+		}
+	default: // the whole protein in lower case (every residue unencodable), or nothing but the bad residue
+		if host != "" && strings.ToLower(host) != host {
+			c.Protein = strings.ToLower(host)
+		} else {
+			c.Protein = strings.Repeat(bad, rapid.IntRange(1, 3).Draw(t, "only"))
+		}
+	}
 	return c
 }
 
